@@ -28,6 +28,7 @@ const modPath = "github.com/google/go-tdx-guest"
 var repoPkgs = []string{"./abi", "./verify", "./validate", "./pcs", "./client", "./rtmr", "./verify/trust", "./tools/check", "./proto/..."}
 
 type world struct {
+	contractNotes []string
 	prog  *ssa.Program
 	pkgs  []*ssa.Package
 	db    *vc.SpecDB
@@ -88,8 +89,14 @@ func (w *world) loadSpecs(verifDir string) error {
 		var use string
 		if _, err := os.Stat(inRepo); err == nil {
 			use = inRepo
+			a, _ := os.ReadFile(inRepo)
+			b, err2 := os.ReadFile(pinned)
+			if err2 == nil && string(a) != string(b) {
+				w.contractNotes = append(w.contractNotes, fmt.Sprintf("%s differs from the pinned copy %s (the file in /repo is used)", inRepo, pinned))
+			}
 		} else if _, err := os.Stat(pinned); err == nil {
 			use = pinned
+			w.contractNotes = append(w.contractNotes, fmt.Sprintf("%s is absent from /repo: the pinned copy %s is used", inRepo, pinned))
 		}
 		if use == "" {
 			continue
